@@ -20,6 +20,7 @@ CONSTANTS Positions,   \* where TLS contexts can be configured
           MaxOps,      \* length of the enumerated operation histories
           ArrayLen,    \* number of elements of the array-shaped positions
           KeyForms,    \* textual forms a configured private_key can have (one per history)
+          KeySpells,   \* spellings of the key NAME used at the untyped positions (one per history)
           Defects      \* named ways for the redaction to go wrong
 
 ArrayPos == {"sfa", "exta"} \cap Positions
@@ -33,6 +34,12 @@ Untyped  == {"ext", "sf", "sfa", "exta"}     \* found by key name in untyped con
      trailing   text after it                            crlf       CRLF line ends
      two_blocks EC PARAMETERS + EC PRIVATE KEY (openssl ecparam -genkey)
      path       the path of a key file *)
+(* The NAME of the key at the untyped positions.  The filters / extends that own such a config decode it with
+   encoding/json into v2.TLSConfig, which matches the field name case-insensitively, and the JSON parser resolves
+   escapes in names: every case variant and every escaped spelling of "private_key" configures a key (and must be
+   redacted); "privateKey" does not (the consumer ignores it: not a TLS key as far as MOSN is concerned).
+     exact  private_key     title  Private_Key     upper  PRIVATE_KEY     escaped  private\u005fkey     camel  privateKey *)
+NameAccepted(sp) == sp # "camel"
 Secret(f) == f # "path"
 StartsWithHeader(f) == f \in {"pem", "trailing", "crlf", "two_blocks"}
 
@@ -48,8 +55,9 @@ SlotsOf(P, K(_)) == UNION { { <<p, i>> : i \in K(p) } : p \in P }
 FirstOnly(p) == IF p \in ArrayPos THEN {0} ELSE Full(p)
 
 ViewOf(e) == CASE e = "full"                          -> Positions
-               [] e = "mosnconfig"                    -> {"cm", "lis_ctx", "lis_set", "sf", "sfa"}
-                    \* transferConfig (every persist / hot-upgrade hand-over) leaves the listeners in MosnConfig.Servers[0]
+               [] e = "mosnconfig"                    -> {"cm"}
+                    \* (the code under verification used to leave the listeners of the last persist below
+                    \*  mosn_config.servers[0] as well - see ConfigRedactRace; more placeholders than required are fine)
                [] e \in {"allclusters", "cluster"}    -> {"clu"}
                [] e \in {"alllisteners", "listener"}  -> {"lis_ctx", "lis_set", "sf", "sfa"}
                [] OTHER                               -> {}     \* allrouters, router: no TLS below a router
@@ -59,8 +67,12 @@ VARIABLES stored,    \* slots holding a real key in the effective configuration 
           leaked,    \* slots whose key appeared in the last response
           redacted,  \* number of placeholders in the last response
           form,      \* the form of every key configured in this history
+          spell,     \* the spelling of the key name at the untyped positions in this history
           hist
-vars == <<stored, truth, leaked, redacted, form, hist>>
+vars == <<stored, truth, leaked, redacted, form, spell, hist>>
+
+(* is the value configured at position p a TLS private key at all *)
+SecretAt(p) == Secret(form) /\ (p \in Untyped => NameAccepted(spell))
 
 (* slots the redactor reaches: all of them in the intended design *)
 Reached(st) ==
@@ -68,6 +80,9 @@ Reached(st) ==
       /\ ~("UnwalkedExtends" \in Defects /\ s[1] \in {"ext", "exta"})
       \* "inline" decided by how the value STARTS: a working inline key with something in front is taken for a path
       /\ ~("PrefixOnlyInline" \in Defects /\ s[1] \notin Untyped /\ ~StartsWithHeader(form))
+      \* the walk over untyped configs compares the key name byte for byte (and pre-screens the raw bytes of an extend)
+      /\ ~("ExactKeyNameOnly" \in Defects /\ s[1] \in Untyped
+            /\ (spell \in {"title", "upper"} \/ (spell = "escaped" /\ s[1] \in {"ext", "exta"})))
       \* an array whose LAST element has nothing to redact is handed back as it was
       /\ ~("ArrayLastOnly" \in Defects /\ s[1] \in ArrayPos /\ <<s[1], ArrayLen - 1>> \notin st) }
 
@@ -75,9 +90,9 @@ Init == /\ stored \in { {},
                         SlotsOf(Positions \ {"lis_set"}, Full),
                         SlotsOf(Positions \ {"lis_ctx"}, Full),
                         SlotsOf(Positions \ {"lis_set"}, FirstOnly) }   \* arrays: first element keyed, the rest plain
-        /\ form \in KeyForms
+        /\ form \in KeyForms /\ spell \in KeySpells
         /\ truth = stored /\ leaked = {} /\ redacted = 0
-        /\ hist = <<[op |-> "init", init |-> stored, form |-> form]>>
+        /\ hist = <<[op |-> "init", init |-> stored, form |-> form, spell |-> spell]>>
 
 (* positions with a modelled runtime update; any further position of the generated type graph (names "g:<path>",
    added by the check at run time) is placed through the initial file only *)
@@ -88,14 +103,14 @@ Replace(st, p, K) == { s \in st : s[1] \notin (Excl(p) \cup {p}) } \cup { <<p, i
 Place(p, K) == /\ p \in Runtime
                /\ stored' = Replace(stored, p, K)
                /\ truth' = Replace(truth, p, K)
-               /\ leaked' = {} /\ redacted' = 0 /\ form' = form
+               /\ leaked' = {} /\ redacted' = 0 /\ form' = form /\ spell' = spell
                /\ hist' = Append(hist, [op |-> "place", p |-> p, k |-> K])
 
 Dump(e) == LET inView == { s \in stored : s[1] \in ViewOf(e) } IN
-           /\ leaked' = IF Secret(form) THEN inView \ Reached(inView) ELSE {}
+           /\ leaked' = { s \in inView \ Reached(inView) : SecretAt(s[1]) }
            /\ redacted' = Cardinality(Reached(inView))
            /\ stored' = IF "RedactInPlace" \in Defects THEN stored \ Reached(inView) ELSE stored
-           /\ truth' = truth /\ form' = form
+           /\ truth' = truth /\ form' = form /\ spell' = spell
            /\ hist' = Append(hist, [op |-> "dump", e |-> e])
 
 Next == /\ Len(hist) <= MaxOps
@@ -108,5 +123,5 @@ NoLeak        == leaked = {}          \* per key: no slot's key in any response
 DumpIsPure    == stored = truth       \* TLS keeps working, the restart file keeps the real keys
 
 EmitCase == (Len(hist) = MaxOps + 1 /\ hist[MaxOps + 1].op = "dump") =>
-              PrintT(<<"CASE", ToJson([form |-> form, init |-> hist[1].init, ops |-> SubSeq(hist, 2, Len(hist))])>>)
+              PrintT(<<"CASE", ToJson([form |-> form, spell |-> spell, init |-> hist[1].init, ops |-> SubSeq(hist, 2, Len(hist))])>>)
 ====
